@@ -190,28 +190,36 @@ dict_insert(const struct ly_ctx *ctx, char *value, size_t len, ly_bool zerocopy,
     rec.value = value;
     rec.refcount = 1;
 
-    ret = lyht_insert_with_resize_cb(ctx->dict.hash_tab, (void *)&rec, hash, lydict_resize_val_eq, (void **)&match);
-    if (ret == LY_EEXIST) {
+    /* check if value is already inserted */
+    ret = lyht_find(ctx->dict.hash_tab, (void *)&rec, hash, (void **)&match);
+    if (ret == LY_SUCCESS) {
         match->refcount++;
         if (zerocopy) {
             free(value);
         }
-        ret = LY_SUCCESS;
-    } else if (ret == LY_SUCCESS) {
+    } else if (ret == LY_ENOTFOUND) {
         if (!zerocopy) {
             /*
-             * allocate string for new record
-             * record is already inserted in hash table
+             * allocate string for the new record before it is inserted, a record stored in the hash table must
+             * never point to the caller's buffer (it may be compared as a NULL-terminated string on resize)
              */
-            match->value = malloc(sizeof *match->value * (len + 1));
-            LY_CHECK_ERR_RET(!match->value, LOGMEM(ctx), LY_EMEM);
+            rec.value = malloc(sizeof *rec.value * (len + 1));
+            LY_CHECK_ERR_RET(!rec.value, LOGMEM(ctx), LY_EMEM);
             if (len) {
-                memcpy(match->value, value, len);
+                memcpy(rec.value, value, len);
             }
-            match->value[len] = '\0';
+            rec.value[len] = '\0';
+        }
+
+        /* the value is not in the table, no need to check again (nor when resizing) */
+        ret = lyht_insert_no_check(ctx->dict.hash_tab, (void *)&rec, hash, (void **)&match);
+        if (ret) {
+            /* lyht_insert returned error */
+            free(rec.value);
+            return ret;
         }
     } else {
-        /* lyht_insert returned error */
+        /* lyht_find returned error */
         if (zerocopy) {
             free(value);
         }
